@@ -258,7 +258,7 @@ def run(rd, emit, log, enum_values, ti_default):
     body += 'Definition f_sb_read_methods : list (string * (bool * bool)) := %s.\n\n' % blist(
         ['(%s, (%s, %s))' % (coqs(a), 'true' if b else 'false', 'true' if c else 'false') for a, b, c in rm])
     body += 'Definition f_sb_purity_selftest : bool := %s.\n\n' % ('true' if c19_purity.selftest(log) else 'false')
-    # reflective READ capability: which side-effect-free natives reach (through callees resolved by name in lib/base, depth 3) an
+    # reflective READ capability: which side-effect-free natives reach (own body + the bodies of its callees, resolved by name in lib/base) an
     # accessor that fetches a field of a reflected object, and is it the one that tests no_user_view (GetFieldByName(.., true, ..))
     base_texts = {r: t for r, t in texts.items() if r.startswith('lib/base/') and r.endswith('.cpp')}
     bodies = c19_purity.all_function_bodies(base_texts)
